@@ -31,11 +31,13 @@ func run(c Case) *pbt.Fail {
 		return nil
 	}
 	n, finA, finB, groupA, groupB, differ, cheater := r.Net, r.FinA, r.FinB, r.GroupA, r.GroupB, r.Differ, r.Cheater
-	lastClass = fmt.Sprintf("r=%d|differ=%v|A=%d/%d|B=%d/%d", c.Round, differ, len(finA), len(groupA), len(finB), len(groupB))
+	lastClass = fmt.Sprintf("r=%d|differ=%v|resend=%v|A=%d/%d|B=%d/%d", c.Round, differ, c.Resend, len(finA), len(groupA), len(finB), len(groupB))
 	if !differ {
 		return nil
 	}
-	if len(finA) > 0 && len(finB) > 0 {
+	// with Resend a member of audience A may have been handed version B first and then legitimately shares B's view: there
+	// the decision is taken on the versions the parties were handed FIRST (below), not on audience membership
+	if len(finA) > 0 && len(finB) > 0 && !c.Resend {
 		return pbt.Failf("split:"+c.Proto, fmt.Sprintf("%q equivocated in broadcast round %d; honest parties %v (audience of twin A) and %v (audience of twin B) ALL completed although they received different payloads", cheater, c.Round, finA, finB))
 	}
 	// completed honest parties hold identical views of every non-final broadcast round
@@ -48,16 +50,23 @@ func run(c Case) *pbt.Fail {
 			}
 		}
 	}
+	// a party's view of a broadcast is the version it was handed first (a later version from the same sender for the same
+	// round is a duplicate the handler must ignore)
 	view := map[string][]byte{}
 	for _, name := range fin {
+		own := map[string]bool{}
 		for _, e := range n.Party(name).Log {
 			m := e.M
 			if !e.Accepted || !m.Broadcast || int(m.RoundNumber) >= finalRound || m.RoundNumber == 0 {
 				continue
 			}
 			k := fmt.Sprintf("%d/%s", m.RoundNumber, m.From)
+			if own[k] {
+				continue
+			}
+			own[k] = true
 			if v, ok := view[k]; ok && !bytes.Equal(v, m.Data) {
-				return pbt.Failf("views-differ:"+c.Proto, fmt.Sprintf("completed honest parties hold different round-%d broadcasts of %q", m.RoundNumber, m.From))
+				return pbt.Failf("views-differ:"+c.Proto, fmt.Sprintf("completed honest parties acted on different round-%d broadcasts of %q (resend=%v)", m.RoundNumber, m.From, c.Resend))
 			}
 			view[k] = m.Data
 		}
